@@ -19,7 +19,7 @@ import (
 	v1 "github.com/crossplane/crossplane/apis/apiextensions/v1"
 )
 
-func pick[T any](r *rand.Rand, xs []T) T { return xs[r.IntN(len(xs))] }
+func pick[T any](r *rand.Rand, xs []T) T  { return xs[r.IntN(len(xs))] }
 func chance(r *rand.Rand, p float64) bool { return r.Float64() < p }
 func ptrTo[T any](v T) *T                 { return &v }
 
